@@ -35,8 +35,13 @@ type Scenario struct {
 	Check     func(e *vrt.Exec) *Violation // nil => DefaultCheck
 	EnvBudget int
 	Horizon   int
+	// Delay selects delay bounding: every non-default choice costs one deviation
+	// (also switching away from a blocked thread and picking another ready select case).
+	Delay bool
 	// MaxBound caps the deviation bound for this scenario (0 = no cap)
 	MaxBound int
+	// QuickMaxBound caps the bound in the quick tier only
+	QuickMaxBound int
 	// Tags select scenarios per tier ("quick" scenarios run in both tiers)
 	ThoroughOnly bool
 }
@@ -59,16 +64,20 @@ func DefaultCheck(name string, e *vrt.Exec) *Violation {
 
 // BlockedSig is the sorted list of blocked operation kinds (without ids).
 func BlockedSig(e *vrt.Exec) string {
+	seen := map[string]bool{}
 	var ks []string
 	for _, b := range e.Blocked {
-		// T3@mutex.lock#12 -> mutex.lock
-		if i := strings.Index(b, "@"); i >= 0 {
+		// T3:mutex.lock@pkg.Func#12 -> mutex.lock@pkg.Func (set, not multiset)
+		if i := strings.Index(b, ":"); i >= 0 {
 			b = b[i+1:]
 		}
-		if i := strings.Index(b, "#"); i >= 0 {
+		if i := strings.LastIndex(b, "#"); i >= 0 {
 			b = b[:i]
 		}
-		ks = append(ks, b)
+		if !seen[b] {
+			seen[b] = true
+			ks = append(ks, b)
+		}
 	}
 	sort.Strings(ks)
 	return strings.Join(ks, ",")
@@ -144,7 +153,11 @@ type explorer struct {
 }
 
 func runOnce(sc *Scenario, prefix []int, visit func(e *vrt.Exec, key uint64, cost int) bool, trace bool) *vrt.Exec {
-	return vrt.Run(vrt.Config{Prefix: prefix, Horizon: sc.Horizon, EnvBudget: sc.EnvBudget, Visit: visit, Trace: trace}, sc.Run)
+	cfg := vrt.Config{Prefix: prefix, Horizon: sc.Horizon, EnvBudget: sc.EnvBudget, Visit: visit, Trace: trace}
+	if sc.Delay {
+		cfg.BlockSwitchCost, cfg.SelectCost = 1, 1
+	}
+	return vrt.Run(cfg, sc.Run)
 }
 
 func obsHash(e *vrt.Exec) uint64 {
